@@ -99,6 +99,13 @@ a
 x *
 undo u k1 *
 """,
+    # 6: a rule that orders patches only (%scope=patch): generated configurations are ordered as if it were not there
+    """
+y *
+a
+m %scope=patch
+x *
+""",
 ]
 
 SLOTS_Q = [S(["a"]), S(["x k1"]), S(["y k1"]), S(["m"]), S(["u k1 v1", "u k1 v2"]),
@@ -117,6 +124,8 @@ class ORule:
         self.row = row
         self.order_reverse = params.get("order_reverse", "0") not in ("0", "")
         self.is_global = params.get("global", "0") not in ("0", "")
+        # %scope=patch: the rule orders patches only, never generated configurations
+        self.scope = [x for x in params["scope"].split(",") if x] if params.get("scope") else None
         self.children = children
         s, f = ref_rule_regex(row)
         self.rx = re.compile(s, f)
@@ -133,22 +142,26 @@ def parse_order(text):
     return conv(rules)
 
 
-def ref_rank(level, row):
+def ref_rank(level, row, scope=None):
     """(rank, child level).  level: list[ORule] (siblings incl. inherited globals, in file order).
     A removal command matched directly by an %order_reverse rule is pinned at that rule's (positive) index and this takes
     precedence over matching a plain rule through its negated form.  The child level lists, in file order, every %global
     sibling and the children of the matched rule."""
     direct = not row.startswith(PREFIX + " ")
     pinned = None
+    # rules limited to another scope do not take part (they keep their position number)
+    level = [r if (r.scope is None or scope in r.scope) else None for r in level]
     if not direct:
         for i, r in enumerate(level):
-            if r.order_reverse and r.rx.match(row):
+            if r is not None and r.order_reverse and r.rx.match(row):
                 pinned = i
                 break
     rank = 0
     child = []
     hit = False
     for i, r in enumerate(level):
+        if r is None:
+            continue
         if r.is_global:
             child.append(r)
         if not r.order_reverse and (r.rx.match(row) or r.rrx.match(row)):
@@ -184,7 +197,7 @@ def walk_patch(pt, level, exit_word, path, out):
     for row, child in items:
         if row == exit_word:
             continue
-        rk, chl = ref_rank(level, row)
+        rk, chl = ref_rank(level, row, "patch")
         ranks.append((rk, row, child, chl))
         out.append(path + (row,))
     for i in range(len(ranks)):
@@ -249,7 +262,7 @@ def check_synth(oi, old, new):
     collect2(patch, ())
     if collections.Counter(rows_all) != collections.Counter(rows2):
         return False, dict(base, sorted=sorted(rows_all), unsorted=sorted(rows2)), "sorting-is-not-a-permutation", True
-    distinct_ranks = len(set(ref_rank(c["order"], r[0])[0] for r in rows if len(r) == 1)) > 1
+    distinct_ranks = len(set(ref_rank(c["order"], r[0], "patch")[0] for r in rows if len(r) == 1)) > 1
     return True, None, None, distinct_ranks
 
 
